@@ -284,6 +284,25 @@ func c17Calls(r *rand.Rand, dir string) []c17Call {
 				return normOut(b, err)
 			}})
 		}
+		// detection on files: two files with the same base name in different directories, one of them large with its
+		// declaration at the very end (its detection is in flight for long), the other small and of another format
+		da, db := filepath.Join(dir, "a"), filepath.Join(dir, "b")
+		if os.MkdirAll(da, 0o755) == nil && os.MkdirAll(db, 0o755) == nil {
+			big := "{\n\"components\": [\n" + strings.Repeat("{\"type\": \"library\", \"name\": \"x\"},\n", 30000) + "{\"type\": \"library\", \"name\": \"y\"}\n],\n\"version\": 1,\n\"bomFormat\": \"CycloneDX\",\n\"specVersion\": \"1.5\"\n}\n"
+			pa, pb := filepath.Join(da, "sbom.json"), filepath.Join(db, "sbom.json")
+			if os.WriteFile(pa, []byte(big), 0o644) == nil && os.WriteFile(pb, spdxBytes, 0o644) == nil {
+				for name, p := range map[string]string{"sniff-file:large-cdx-late-declaration": pa, "sniff-file:small-spdx-same-base-name": pb} {
+					p := p
+					calls = append(calls, c17Call{name, func() string {
+						f, err := (&formats.Sniffer{}).SniffFile(p)
+						if err != nil {
+							return "error"
+						}
+						return string(f)
+					}})
+				}
+			}
+		}
 		inPath := filepath.Join(dir, "in-spdx.json")
 		if os.WriteFile(inPath, spdxBytes, 0o644) == nil {
 			calls = append(calls, c17Call{"parse-file", func() string { return digestDoc(reader.New().ParseFile(inPath)) }})
@@ -474,7 +493,7 @@ func init() {
 	core.Register(&core.Prop{
 		ID: "C17", Level: "exploration",
 		Rule: "each round runs in a fresh process (library defaults; every second round begins with a cold start: the process's very first calls into the reader, writer and formats packages - lookups, registrations, writes, parses - come from 12 goroutines released together (all making the same first call, or mixed), five fresh child processes per round) with the verif yield points installed (Gosched or a seeded sub-millisecond sleep at the five interleaving windows; the hook order is logged on a global logical clock): " +
-			"(a) every call of a fixed call set (sniff JSON / tag-value / garbage inputs; parse SPDX, CycloneDX and garbage; parse with reader options; write independent documents through writers built WithFormat(F) for 3 formats; write documents to files of their own in one shared directory and read them back, parse one shared input file; one writer and one reader shared by all goroutines; default writer) is executed once sequentially, " +
+			"(a) every call of a fixed call set (sniff JSON / tag-value / garbage inputs; parse SPDX, CycloneDX and garbage; parse with reader options; write independent documents through writers built WithFormat(F) for 3 formats; write documents to files of their own in one shared directory and read them back, parse one shared input file, detect the format of two files with one base name in two directories (a large one declaring its format at the end, a small one of another format); one writer and one reader shared by all goroutines; default writer) is executed once sequentially, " +
 			"then G in {4,16,64} goroutines execute the calls concurrently while other goroutines churn both format registries on scratch keys; every concurrent result must equal the sequential one and a writer built WithFormat(F) must emit F; " +
 			"(a') 600 writes in a scratch format whose driver is being replaced concurrently by two distinguishable fake drivers: each write must be serialized and rendered by the same driver; " +
 			"(b) a registry history (2-4 clients, <=200 operations on 2-3 contended scratch keys, call/return stamps from one atomic clock) is recorded for the unserializer and the serializer registry and checked for linearizability against a per-key register with porcupine (timeout = inconclusive). " +
